@@ -1142,3 +1142,36 @@ _add(
         tags=("kern", "zoo2", "facet", "interior", "slow"),
     )
 )
+
+# the scalar type spelled as a numpy type or dtype object instead of a string
+import numpy as _np  # noqa: E402
+
+for _lab, _val in (("npfloat32", _np.float32), ("dtypefloat32", _np.dtype("float32")),
+                   ("npfloat64", _np.float64), ("dtypecomplex128", _np.dtype("complex128"))):
+    _add(POOL["stiff_p2_triangle"].variant(f"@{_lab}", options={"scalar_type": _val},
+                                           tags=("family", "nocli")))
+
+
+# several requests compiled in one call
+class Combined(Request):
+    def __init__(self, name, parts, tags=("nocli", "combo")):
+        self.parts = [POOL[p] for p in parts]
+        assert len({p.kind for p in self.parts}) == 1 and not any(p.options for p in self.parts)
+        super().__init__(name, self.parts[0].kind, [s for p in self.parts for s in p.stmts], None, tags)
+
+    def build(self, between=None):
+        objs, ns = [], {}
+        for p in self.parts:
+            o, n = p.build(between)
+            objs += list(o)
+            ns = n
+        ns["objs"] = objs
+        return objs, ns
+
+
+_add(Combined("combo:mass_p1_interval+stiff_p2_triangle", ["mass_p1_interval", "stiff_p2_triangle"]))
+_add(Combined("combo:stiff_p2_triangle+mass_p1_interval", ["stiff_p2_triangle", "mass_p1_interval"]))
+_add(Combined("combo:taylor_hood_tri+coeff_const_tri+two_forms_tri",
+              ["taylor_hood_tri", "coeff_const_tri", "two_forms_tri"]))
+_add(Combined("combo:expr_p1_tri_2pts+expr_facet_tri+expr_rank1_tet",
+              ["expr_p1_tri_2pts", "expr_facet_tri", "expr_rank1_tet"]))
